@@ -13,6 +13,19 @@
 (*                not close it (UNBALANCED: outside the property; RefRelations*)
 (*                treats it like a paragraph, the universes that contain it   *)
 (*                take their expectation from the machine -- DRIFT only)      *)
+(*   round 8 -- constructs that SPAN LINES: a list / paragraph / indented     *)
+(*   line may carry the field  o |-> kind : after its word it OPENS a construct*)
+(*   (<pre>, <div>, <span>, <ref>) that is closed on a LATER line:             *)
+(*   [t |-> "X"]  a continuation line (a word) inside the open construct       *)
+(*   [t |-> "C", c |-> kind, b |-> BOOLEAN]  the line that holds the closer    *)
+(*                (b: the closer stands first, else the word stands first)     *)
+(*   Opener, continuation and closer lines together are ONE balanced filler    *)
+(*   that happens to contain newlines.  X and C lines are paragraph-like       *)
+(*   (their word is content of the section that is open).  Whether such a      *)
+(*   filler CONTINUES the list item it was opened in (it is part of the item's *)
+(*   logical line: join) or ENDS it like a paragraph line (break) is something *)
+(*   the statement does not say: RefAccept(doc) holds both readings; the lines *)
+(*   after the closer are ordinary lines in both.                              *)
 (* Line i carries the unique marker word W(i).                                *)
 (*                                                                            *)
 (* RefRelations(doc) states, without any stack, what the property demands:    *)
@@ -63,26 +76,34 @@ Container(doc, k) ==   \* for any other line
 
 (* ---- lists ---- *)
 ProperPrefix(p, q) == Len(p) < Len(q) /\ \A n \in 1..Len(p) : p[n] = q[n]
+\* (round 8) continuation / closer lines of a construct that spans lines; the line that opened it
+IsCont(doc, m) == doc[m].t \in {"X", "C"}
+IsOpener(doc, j) == "o" \in DOMAIN doc[j]
+OpenerOf(doc, m) == MaxOr0({ j \in 1..(m - 1) : IsOpener(doc, j) })
+\* reading `join`: the lines of a spanning construct opened in a list item belong to that item's logical line
+Transparent(doc, m, join) ==
+  join /\ IsCont(doc, m) /\ OpenerOf(doc, m) # 0 /\ IsL(doc, OpenerOf(doc, m))
 \* j and k belong to one run of consecutive list lines
-SameRun(doc, j, k) == \A m \in j..k : IsL(doc, m)
+SameRun(doc, j, k, join) == \A m \in j..k : IsL(doc, m) \/ Transparent(doc, m, join)
 \* item j (< k) is still open at line k: every line in between is nested in it
-ItemOpen(doc, j, k) ==
-  /\ j < k /\ SameRun(doc, j, k)
-  /\ \A m \in (j + 1)..(k - 1) : ProperPrefix(doc[j].p, doc[m].p)
-ItemParent(doc, k) ==
-  MaxOr0({ j \in 1..(k - 1) : ItemOpen(doc, j, k) /\ ProperPrefix(doc[j].p, doc[k].p) })
+ItemOpen(doc, j, k, join) ==
+  /\ j < k /\ SameRun(doc, j, k, join)
+  /\ \A m \in (j + 1)..(k - 1) : IsL(doc, m) => ProperPrefix(doc[j].p, doc[m].p)
+ItemParent(doc, k, join) ==
+  MaxOr0({ j \in 1..(k - 1) : IsL(doc, j) /\ ItemOpen(doc, j, k, join) /\ ProperPrefix(doc[j].p, doc[k].p) })
 \* the previous item of the same list: same marker, only its own descendants in between
-PrevSibling(doc, k) ==
-  MaxOr0({ j \in 1..(k - 1) : ItemOpen(doc, j, k) /\ doc[j].p = doc[k].p })
-RECURSIVE ListHead(_, _)
-ListHead(doc, k) == IF PrevSibling(doc, k) = 0 THEN k ELSE ListHead(doc, PrevSibling(doc, k))
+PrevSibling(doc, k, join) ==
+  MaxOr0({ j \in 1..(k - 1) : IsL(doc, j) /\ ItemOpen(doc, j, k, join) /\ doc[j].p = doc[k].p })
+RECURSIVE ListHead(_, _, _)
+ListHead(doc, k, join) == IF PrevSibling(doc, k, join) = 0 THEN k ELSE ListHead(doc, PrevSibling(doc, k, join), join)
 
 NoOwn == [k |-> "-", w |-> "-", m |-> <<>>]
 IsI(doc, i) == doc[i].t = "I"
-Worded == {"H", "L", "P", "I", "O"}      \* line types that carry a marker word
+Worded == {"H", "L", "P", "I", "O", "X", "C"}      \* line types that carry a marker word
+ParaLike == {"P", "O", "X", "C"}                  \* ... whose word is plain content of the open section
 \* the node of section j; 0 = no section: the root
 SecKind(doc, j) == IF j = 0 THEN "ROOT" ELSE LevelKind(doc[j].l)
-RefRelations(doc) ==
+RefRelationsJ(doc, join) ==
   LET n == Len(doc) IN
   [ own  |-> [i \in 1..n |->
                 IF IsH(doc, i) THEN [k |-> LevelKind(doc[i].l), w |-> "largs", m |-> <<>>]
@@ -91,18 +112,25 @@ RefRelations(doc) ==
                 ELSE NoOwn],
     sec  |-> [i \in 1..n |->
                 IF IsH(doc, i) THEN SecParent(doc, i)
-                ELSE IF doc[i].t \in {"L", "P", "I", "O"} THEN Container(doc, i) ELSE 0],
-    item |-> [i \in 1..n |-> IF IsL(doc, i) THEN ItemParent(doc, i) ELSE 0],
-    lst  |-> [i \in 1..n |-> IF IsL(doc, i) THEN ListHead(doc, i) ELSE 0],
+                ELSE IF doc[i].t \in {"L", "I"} \cup ParaLike THEN Container(doc, i) ELSE 0],
+    item |-> [i \in 1..n |-> IF IsL(doc, i) THEN ItemParent(doc, i, join) ELSE 0],
+    lst  |-> [i \in 1..n |-> IF IsL(doc, i) THEN ListHead(doc, i, join) ELSE 0],
     par  |-> [i \in 1..n |->
                 IF IsH(doc, i) THEN SecKind(doc, SecParent(doc, i))
-                ELSE IF IsL(doc, i) THEN (IF ItemParent(doc, i) # 0 THEN "LIST_ITEM" ELSE SecKind(doc, Container(doc, i)))
+                ELSE IF IsL(doc, i) THEN (IF ItemParent(doc, i, join) # 0 THEN "LIST_ITEM" ELSE SecKind(doc, Container(doc, i)))
                 ELSE IF IsI(doc, i) THEN SecKind(doc, Container(doc, i))
                 ELSE IF doc[i].t = "R" THEN SecKind(doc, Container(doc, i + 1))
                 ELSE "-"],
     nsec |-> Cardinality({ i \in 1..n : IsH(doc, i) }),
     nitem |-> Cardinality({ i \in 1..n : IsL(doc, i) }),
-    nlist |-> Cardinality({ i \in 1..n : IsL(doc, i) /\ ListHead(doc, i) = i }) ]
+    nlist |-> Cardinality({ i \in 1..n : IsL(doc, i) /\ ListHead(doc, i, join) = i }) ]
+RefRelations(doc) == RefRelationsJ(doc, FALSE)
+\* (round 8) what the statement accepts for a document with a construct that spans lines: both readings
+HasSpan(doc) == \E i \in 1..Len(doc) : IsOpener(doc, i)
+\* the construct opened last has not been closed yet (the document is unbalanced as it stands)
+SpanOpen(doc) ==
+  LET j == OpenerOf(doc, Len(doc) + 1) IN j # 0 /\ \A m \in (j + 1)..Len(doc) : doc[m].t # "C"
+RefAccept(doc) == IF HasSpan(doc) THEN << RefRelationsJ(doc, FALSE), RefRelationsJ(doc, TRUE) >> ELSE << RefRelations(doc) >>
 
 (* ------------------------------------------------------------------------ *)
 (* The same relations read off a tree (machine tree of Parser.tla: nodes     *)
@@ -182,7 +210,7 @@ RelationsOfChains(doc, chs, nsec, nitem, nlist, rulepar) ==
       worded(i) == doc[i].t \in Worded
       own(i) == IF ~one(i) THEN [k |-> "BAD", w |-> "-", m |-> <<>>]
                 ELSE LET e == chs[i][Len(chs[i])] IN
-                     IF doc[i].t \in {"P", "O"} THEN NoOwn ELSE [k |-> e.kind, w |-> e.w, m |-> e.sarg]
+                     IF doc[i].t \in ParaLike THEN NoOwn ELSE [k |-> e.kind, w |-> e.w, m |-> e.sarg]
       sec(i) == IF ~one(i) THEN 0
                 ELSE LET c == chs[i]
                          upto == IF doc[i].t = "H" THEN Len(c) - 1 ELSE Len(c)
